@@ -38,7 +38,7 @@ RULE = ("worlds of 3 real IdentityCommunity nodes + 2 node-less third-party keys
         "(cross-subject registration, expiry boundary, third-party attestation stored first, replay, long chain, "
         "sha1, fixed-metadata, wrong-name, tainted disclosure, restart over the same database with a new or the old "
         "IdentityManager (third party's row first / own row stored / own row plus a row of another subject for the same "
-        "metadata), stale-plus-fresh registration, orphan flood beyond the 100-token cap, none) followed by 25-45 seeded events drawn from: add_known_hash (any subject incl. "
+        "metadata), stale-plus-fresh registration, orphan flood beyond the 100-token cap, registration without a JSON form, chain with one forged link delivered out of order, none) followed by 25-45 seeded events drawn from: add_known_hash (any subject incl. "
         "third parties, 5 hashes + one 20-byte hash, 3 names, 5 metadata dicts), request_attestation_advertisement, "
         "self_advertise (single / bulk), deliver / replay / drop of captured packets, restarts, clock steps in multiples of "
         "1/8 s incl. exactly +299.875, +300, +300.125 and +301 s after a registration, registered and disclosed metadata "
@@ -347,7 +347,11 @@ class World:
             known = None
         pm = getattr(ov, "permissions", None)
         if isinstance(pm, dict):
-            perms = " ".join(sorted("%d:%d" % (self.kid(p.public_key.key_to_bin()), n) for p, n in pm.items())) or "-"
+            ent = []
+            for p, n in list(pm.items())[:50]:
+                kb = p.public_key.key_to_bin()
+                ent.append("%s:%d" % (self.kids[kb] if kb in self.kids else "foreign", n))
+            perms = " ".join(sorted(ent)) or "-"
         else:
             perms = None
         return rows, known, perms
@@ -825,8 +829,15 @@ class Gen:
             target = blob
         elif toks:
             target = rng.choice(toks)
-        tv = rng.choice(["ok"] * 6 + ["foreign-signed", "garbage", "orphan", "truncate", "shuffle", "dup"])
+        tv = rng.choice(["ok"] * 6 + ["foreign-signed", "garbage", "orphan", "truncate", "shuffle", "dup", "forged-link",
+                                      "forged-link"])
         w.ctx.count("craft:token-variant:" + tv)
+        if tv == "forged-link" and toks:
+            # one token of the chain keeps its place (predecessor pointer and content hash) but not its signature; its
+            # successors are re-made on top of it, so the chain is unbroken apart from that one signature
+            toks, target = self.forge_link(p, toks, target)
+            if rng.random() < 0.6:
+                toks = list(reversed(toks))          # children before parents: they wait for their predecessor
         if tv == "foreign-signed":
             q = rng.choice([k for k in w.sk if k != p])
             toks.append(mk_token(w, q, w.genesis[p], self.rhash().ljust(32, b"\0")))
@@ -906,6 +917,35 @@ class Gen:
             for e in pk:
                 w.queue.remove(e)
                 w.ev_deliver(e)
+
+    def forge_link(self, p, toks, target, at=None):
+        """Re-make the chain `toks` with token `at` carrying a signature that does not verify under p's key."""
+        w, rng = self.w, self.rng
+        at = rng.randrange(len(toks)) if at is None else at
+        kind = rng.choice(["garbage-signature", "signed-by-other-key", "bit-flip"])
+        w.ctx.count("craft:forged-link:" + kind)
+        w.ctx.count("craft:forged-link:position=" + ("last" if at == len(toks) - 1 else "inner"))
+        out, remap, new_target = [], {}, target
+        for i, b in enumerate(toks):
+            prev, content = b[:32], b[32:64]
+            prev = remap.get(prev, prev)
+            if i == at:
+                if kind == "garbage-signature":
+                    nb = prev + content + rng.randbytes(SIGLEN)
+                elif kind == "signed-by-other-key":
+                    nb = mk_token(w, rng.choice([k for k in w.sk if k != p]), prev, content)
+                else:
+                    good = mk_token(w, p, prev, content)
+                    nb = good[:-1] + bytes([good[-1] ^ 1])
+            elif prev != b[:32]:
+                nb = mk_token(w, p, prev, content)
+            else:
+                nb = b
+            remap[sha3(b)] = sha3(nb)
+            if target is not None and b == target:
+                new_target = nb
+            out.append(nb)
+        return out, new_target
 
     def craft_attest(self, p, v):
         w, rng = self.w, self.rng
@@ -1060,6 +1100,44 @@ class Gen:
             rng.shuffle(mds)
             pl = w.P.DisclosePayload(frame_md(mds), b"".join(real), b"", b"")
             for e in w.craft(a, v, pl, "stale and fresh credential"):
+                w.queue.remove(e)
+                w.ev_deliver(e)
+        elif kind == "forged-out-of-order":
+            # the subject's chain arrives out of order and one link of it is not signed by the subject: first the later
+            # tokens (they wait for their predecessor) with properly signed metadata, then the earlier ones
+            w.ev_reg(v, h1, name, a, None)
+            n = rng.choice([2, 2, 3, 4])
+            prev, blobs = w.genesis[a], []
+            for i in range(n):
+                blob = mk_token(w, a, prev, h1 if i == n - 1 else sha3(b"link%d" % i))
+                blobs.append(blob)
+                prev = sha3(blob)
+            forged = rng.random() < 0.8
+            if forged:
+                blobs, _ = self.forge_link(a, blobs, None, at=rng.choice([n - 1, n - 1, rng.randrange(n)]))
+            w.ctx.count("forged-out-of-order:" + ("forged" if forged else "honest-control"))
+            md = mk_metadata(w, a, sha3(blobs[-1]), self.json_variant(name, None, "ok"))
+            w.trace.append({"op": "opener", "kind": kind, "n": n, "forged": forged})
+            cut = rng.randint(1, n - 1)
+            first, later = blobs[cut:], blobs[:cut]
+            if rng.random() < 0.5:
+                first = list(reversed(first))
+            for e in w.craft(a, v, w.P.DisclosePayload(frame_md([md]), b"".join(first), b"", b""), "later tokens first"):
+                w.queue.remove(e)
+                w.ev_deliver(e)
+            how = rng.choice(["missing-response", "disclose", "one-by-one"])
+            w.ctx.count("forged-out-of-order:rest-by-" + how)
+            if how == "missing-response":
+                pls = [w.P.MissingResponsePayload(b"".join(later))]
+            elif how == "disclose":
+                pls = [w.P.DisclosePayload(frame_md([md]), b"".join(later), b"", b"")]
+            else:
+                pls = [w.P.MissingResponsePayload(b) for b in reversed(later)]
+            for pl in pls:
+                for e in w.craft(a, v, pl, "earlier tokens afterwards"):
+                    w.queue.remove(e)
+                    w.ev_deliver(e)
+            for e in w.craft(a, v, w.P.DisclosePayload(frame_md([md]), b"", b"", b""), "metadata once more"):
                 w.queue.remove(e)
                 w.ev_deliver(e)
         elif kind == "unserialisable-registration":
@@ -1260,7 +1338,7 @@ class Gen:
 
 OPENERS = ["cross-subject", "expiry", "third-party-first", "replay", "long-chain", "sha1", "fixed-metadata",
            "wrong-name", "tainted", "restart", "stale-plus-fresh", "orphan-flood",
-           "unserialisable-registration", "none"]
+           "unserialisable-registration", "forged-out-of-order", "none"]
 
 
 async def run_world(ctx: Ctx, loop, use_model: bool, opener: str, n_events: int, world_seed: int):
@@ -1323,6 +1401,9 @@ def run_worlds(ctx: Ctx, n_worlds: int, use_model: bool):
                 compare(ctx, w, replies)
             ctx.case(hashlib.sha1("\n".join(w.lines).encode()).hexdigest(), w.nontrivial)
             ctx.count("world:events", len(w.trace))
+            if len(ctx.failures) >= 200 or len(ctx.disagreements) >= 200:
+                ctx.extra["stopped_early"] = f"after {i + 1} of {n_worlds} worlds: failure/disagreement buffer full"
+                break
             if i < 2:
                 ctx.sample({"opener": opener, "first_lines": w.lines[:8]})
     finally:
@@ -1378,6 +1459,8 @@ def run_matrix(ctx: Ctx, use_model: bool):
                 compare(ctx, w, ctx.driver().batch(w.lines))
             ctx.case(("matrix", combo), True)
             ctx.count("matrix:cells")
+            if len(ctx.failures) >= 200 or len(ctx.disagreements) >= 200:
+                break
     finally:
         vclock.uninstall()
         logging.disable(logging.NOTSET)
@@ -1393,7 +1476,7 @@ def run(ctx: Ctx):
     if ctx.replay_input is not None:
         return replay(ctx, ctx.replay_input)
     run_matrix(ctx, ctx.model_ok)
-    run_worlds(ctx, ctx.scale(238, 3010), ctx.model_ok)
+    run_worlds(ctx, ctx.scale(240, 3000), ctx.model_ok)
 
 
 def search(ctx: Ctx, reason: str):
